@@ -190,6 +190,62 @@ pub fn scenarios(ctx: &Ctx, rng: &mut Rng) -> Vec<Scenario> {
                     }),
                 });
             }
+            // ---- writers of an OPENED archive (tiles still backed by the source reader; one tile added): faults in the
+            // destination, and faults in the SOURCE reader while it is being copied from
+            for (asyncm, source_faults) in [(false, false), (false, true), (true, false), (true, true)] {
+                let b = bytes.clone();
+                v.push(Scenario {
+                    name: format!(
+                        "PMTiles::{}/{cn}/{lname}/opened-archive/{}",
+                        if asyncm { "to_async_writer" } else { "to_writer" },
+                        if source_faults { "source-faults" } else { "destination-faults" }
+                    ),
+                    writer: true,
+                    run: Box::new(move |k| {
+                        if asyncm {
+                            // source faults are positioned relative to the whole open + write sequence on the source
+                            let mut src = AInst::new(b.as_ref().clone());
+                            let mut dst = AInst::new(Vec::new());
+                            aset(&mut src, if source_faults { k } else { None }, source_faults);
+                            aset(&mut dst, if source_faults { None } else { k }, !source_faults);
+                            let r = guard(|| {
+                                block_on(async {
+                                    let mut pm = PMTiles::from_async_reader(&mut src).await?;
+                                    pm.add_tile(u64::from(u32::MAX) + 9, vec![4u8, 5, 6])?;
+                                    pm.to_async_writer(&mut dst).await
+                                })
+                            });
+                            if source_faults {
+                                let mut o = finish_async(r, |()| 1, &src, false);
+                                o.image = Some(dst.c.data.clone());
+                                o
+                            } else {
+                                finish_async(r, |()| 1, &dst, true)
+                            }
+                        } else {
+                            let mut src = Inst::new(b.as_ref().clone());
+                            let mut dst = Inst::new(Vec::new());
+                            if !source_faults {
+                                dst.c.fail_from = k;
+                            } else {
+                                src.c.fail_from = k;
+                            }
+                            let r = guard(|| {
+                                let mut pm = PMTiles::from_reader(&mut src)?;
+                                pm.add_tile(u64::from(u32::MAX) + 9, vec![4u8, 5, 6])?;
+                                pm.to_writer(&mut dst)
+                            });
+                            if source_faults {
+                                let mut o = finish_sync(r, |()| 1, &src, false);
+                                o.image = Some(dst.c.data.clone());
+                                o
+                            } else {
+                                finish_sync(r, |()| 1, &dst, true)
+                            }
+                        }
+                    }),
+                });
+            }
             // ---- readers: open
             for asyncm in [false, true] {
                 let b = bytes.clone();
